@@ -184,6 +184,9 @@ func newNet(in *Input) *netsim.Sim {
 		}
 		b, l, e, rd, rt := body, in.Lengths[route], in.Endless[route], in.Redirect[route], route
 		net.Handle(route, func(rq *netsim.Request) netsim.Reply {
+			if ra := in.RetryAfter[rt]; ra != "" {
+				return netsim.Reply{Status: []int{429, 503}[rq.Nth%2], Header: http.Header{"Retry-After": []string{ra}}, Body: []byte("slow down"), Class: "retry-after"}
+			}
 			if rd {
 				return netsim.Reply{Status: 307, Header: http.Header{"Location": []string{fmt.Sprintf("http://%s?hop=%d", rt, rq.Nth+1)}}, Class: "redirect"}
 			}
